@@ -52,6 +52,28 @@ func corridorDist(start, end *object.Point, id string) (float64, bool) {
 	return m.Distance, true
 }
 
+// uniformFit: every voxel of the line of corridor arguments a fits the same (horizontal, vertical) layer counts for the radius
+func uniformFit(a []string) bool {
+	s, ok1 := mkPoint(a[0], a[1], a[2])
+	e, ok2 := mkPoint(a[3], a[4], a[5])
+	if !ok1 || !ok2 || s == nil || e == nil {
+		return false
+	}
+	line, err := shape.GetExtendedSpatialIdsOnLine(s, e, atoi(a[7]), atoi(a[8]))
+	if err != nil {
+		return false
+	}
+	layers := map[[2]int64]bool{}
+	for _, id := range line {
+		hl, vl, err := transform.FitClearanceAroundExtendedSpatialID(id, atof(a[6]))
+		if err != nil {
+			return false
+		}
+		layers[[2]int64{hl, vl}] = true
+	}
+	return len(layers) == 1
+}
+
 func init() {
 	call := func(a []string) ([]string, error) {
 		s, ok1 := mkPoint(a[0], a[1], a[2])
@@ -136,6 +158,12 @@ func init() {
 					sizes = append(sizes, fmt.Sprint(len(strings.Split(r, ","))))
 				}
 				sort.Strings(sizes)
+				// D9 is the documented cause only: the line's voxels disagree on the fitted layer counts and the call uses those of
+				// whichever voxel its map iteration yields first.  Differing results although every line voxel fits the SAME
+				// counts are something else.
+				if uniformFit(a) {
+					return "NONDET-UNIFORM " + fmt.Sprint(len(distinct)) + " different results in 6 identical calls although every line voxel fits the same layer counts, sizes " + strings.Join(sizes, "/")
+				}
 				return "D9NONDET " + fmt.Sprint(len(distinct)) + " different results in 6 identical calls, sizes " + strings.Join(sizes, "/")
 			}
 			_ = first
